@@ -63,7 +63,8 @@ class CheckMixin:
     def is_class_enum(self, arg_type: parser.Type, class_: parser.Class):
         """Check if arg_type is an enum in the class `class_`."""
         if class_:
-            class_enums = [enum.name for enum in class_.enums]
+            # `class_` can also be a global function (which has no enums)
+            class_enums = [enum.name for enum in getattr(class_, 'enums', [])]
             return arg_type.typename.name in class_enums
         else:
             return False
